@@ -268,6 +268,22 @@ impl E1Oracle for C09Oracle {
         let w = self.weighted;
         check_counts(g, w, &mut |_, _, _| {});
     }
+    fn fingerprint(&mut self, g: &G, alphabet: &Alphabet) -> u64 {
+        let mut h = 0u64;
+        fp_mix(&mut h, g.number_of_nodes() as u64);
+        fp_mix(&mut h, g.number_of_edges() as u64);
+        fp_mix(&mut h, g.size(false).to_bits());
+        fp_mix(&mut h, g.get_density().to_bits());
+        for &n in &alphabet.names {
+            fp_mix(&mut h, g.get_node_degree(n).map_or(u64::MAX, |d| d as u64));
+            fp_mix(&mut h, g.get_node_in_degree(n).map_or(u64::MAX, |d| d as u64));
+            fp_mix(&mut h, g.get_node_out_degree(n).map_or(u64::MAX, |d| d as u64));
+            if self.weighted {
+                fp_mix(&mut h, g.get_node_weighted_degree(n).map_or(u64::MAX, |d| d.to_bits()));
+            }
+        }
+        h
+    }
     fn state(&mut self, s: &StateCtx, rec: &Recorder, c: &mut Counters) {
         c.inc("states_checked");
         let b = Base::of(s.g);
